@@ -6,7 +6,8 @@
 //! Cells: every ZiporaTrieConfig preset, the legacy wrapper types, the alias types, the DAWG types
 //! that implement `Trie`, and the ParallelLoudsTrie front end.
 //! Model comparison (Coq): Patricia presets (node-vector model, all ops), sparse preset (same model,
-//! remove = no-op), LOUDS preset (flat length-prefixed list model), critical-bit preset (stub model).
+//! remove = no-op, and the hash-map model of ModelCs.v), LOUDS preset (flat length-prefixed list model),
+//! critical-bit preset (stub model), double-array cells (base/check model of ModelDa.v incl. relocation).
 use crate::util::*;
 use serde_json::{json, Value};
 use std::collections::BTreeSet;
@@ -18,7 +19,7 @@ use zipora::memory::{SecureMemoryPool, SecurePoolConfig};
 use zipora::succinct::RankSelectInterleaved256;
 
 const HEADER: &str = r#"From ZV.Common Require Import Base Run.
-From ZV.C05 Require Import Model.
+From ZV.C05 Require Import Model ModelAll.
 Open Scope N_scope.
 Definition case_t : Type := N * list (N * list N) * list (list (list N)).
 Fixpoint eqb_lln (a b : list (list N)) : bool :=
@@ -33,7 +34,7 @@ Fixpoint eqb_llln (a b : list (list (list N))) : bool :=
   | x :: a', y :: b' => eqb_lln x y && eqb_llln a' b'
   | _, _ => false
   end.
-Definition ok (c : case_t) : bool := let '(kind, ops, expect) := c in eqb_llln (run_cell kind ops) expect.
+Definition ok (c : case_t) : bool := let '(kind, ops, expect) := c in eqb_llln (run_cell2 kind ops) expect.
 "#;
 
 // op codes shared with coq/C05/Model.v
@@ -149,16 +150,16 @@ const CELLS: &[CellDef] = &[
     CellDef { name: "ZiporaTrie/custom(Patricia,Succinct)", kind: Kind::Patricia, status: "M+S" },
     CellDef { name: "ZiporaTrie/custom(CompressedSparse,Hybrid)", kind: Kind::Sparse, status: "M+S" },
     CellDef { name: "ZiporaTrie/custom(Louds,Standard)", kind: Kind::Louds, status: "M+S" },
-    CellDef { name: "ZiporaTrie/custom(DoubleArray,CacheOptimized)", kind: Kind::DoubleArray, status: "S-only" },
+    CellDef { name: "ZiporaTrie/custom(DoubleArray,CacheOptimized)", kind: Kind::DoubleArray, status: "M+S" },
     CellDef { name: "ZiporaTrie/custom(CriticalBit,Standard)", kind: Kind::CritBit, status: "finding" },
     CellDef { name: "ZiporaTrie/sparse_optimized", kind: Kind::Sparse, status: "M+S" },
     CellDef { name: "CompressedSparseTrie(wrapper)", kind: Kind::Sparse, status: "M+S" },
     CellDef { name: "ZiporaTrie/space_optimized", kind: Kind::Louds, status: "M+S" },
     CellDef { name: "NestedLoudsTrie(wrapper)", kind: Kind::Louds, status: "M+S" },
     CellDef { name: "ZiporaTrie/string_specialized", kind: Kind::CritBit, status: "finding" },
-    CellDef { name: "ZiporaTrie/concurrent_high_performance", kind: Kind::DoubleArray, status: "S-only" },
-    CellDef { name: "DoubleArrayTrie(wrapper)", kind: Kind::DoubleArray, status: "S-only" },
-    CellDef { name: "DoubleArrayTrie(wrapper,capacity=1)", kind: Kind::DoubleArray, status: "S-only" },
+    CellDef { name: "ZiporaTrie/concurrent_high_performance", kind: Kind::DoubleArray, status: "M+S" },
+    CellDef { name: "DoubleArrayTrie(wrapper)", kind: Kind::DoubleArray, status: "M+S" },
+    CellDef { name: "DoubleArrayTrie(wrapper,capacity=1)", kind: Kind::DoubleArray, status: "M+S" },
     CellDef { name: "NestedTrieDawg(Trie::insert)", kind: Kind::Dawg, status: "S-only" },
     CellDef { name: "NestedTrieDawg(build_from_keys)", kind: Kind::Dawg, status: "S-only" },
     CellDef { name: "SimpleDawg", kind: Kind::Dawg, status: "S-only" },
@@ -229,7 +230,7 @@ fn make(cell: &str) -> Result<Box<dyn Tr>, String> {
     match r { Ok(x) => x, Err(p) => Err(format!("constructor panicked: {}", p)) }
 }
 
-struct Ctx { sum: Summary, shards: CoqShards, budget: [usize; 4], used: [usize; 4] }
+struct Ctx { sum: Summary, shards: CoqShards, budget: [usize; 6], used: [usize; 6] }
 
 fn coq_key(k: &[u8]) -> String { coq_bytes(k) }
 fn coq_keys(ks: &[Key]) -> String { format!("[{}]", ks.iter().map(|k| coq_key(k)).collect::<Vec<_>>().join("; ")) }
@@ -376,8 +377,8 @@ fn history(cx: &mut Ctx, cell: &CellDef, ops: &[Op], force_coq: bool, allow_coq:
             CLONE => {
                 match guarded(|| t.reclone()) {
                     Err(p) => { fail!(None, "step {}: clone panicked: {}", step, p); coq_ok = false; break; }
-                    // the node-vector model has clone (p_clone); the other models treat it as a no-op
-                    Ok(done) => { obs.push("[]".into()); if !(done && (kind == Kind::Patricia || kind == Kind::Sparse)) { unavailable.push(step); } }
+                    // the node-vector, double-array and hash-map models have clone; the other models treat it as a no-op
+                    Ok(done) => { obs.push("[]".into()); if !(done && (kind == Kind::Patricia || kind == Kind::Sparse || kind == Kind::DoubleArray)) { unavailable.push(step); } }
                 }
             }
             _ => { obs.push("[]".into()); }
@@ -396,15 +397,23 @@ fn history(cx: &mut Ctx, cell: &CellDef, ops: &[Op], force_coq: bool, allow_coq:
             }
         }
     }
-    let slot = match kind { Kind::Patricia => 0, Kind::Sparse => 1, Kind::Louds => 2, Kind::CritBit => 3, _ => 9 };
-    let modelled = slot < 4 && cell.status != "S-only";
-    // evaluating the model's 256-way DFS over several hundred nodes inside Coq is slow: keys beyond 100 bytes are oracle-only
-    let short_enough = force_coq || ops.iter().all(|(_, k)| k.len() <= 100);
-    if modelled && coq_ok && short_enough && obs.len() == ops.len() && (force_coq || (allow_coq && cx.used[slot] < cx.budget[slot])) {
-        cx.used[slot] += 1;
-        let ops_coq: Vec<String> = ops.iter().enumerate().map(|(i, (o, k))| format!("({}, {})", if unavailable.contains(&i) { 9 } else { *o }, coq_key(k))).collect();
-        let term = format!("({}, [{}], [{}])", slot, ops_coq.join("; "), obs.join("; "));
-        cx.shards.push(term, cj);
+    // model slots (= kind numbers of ModelAll.run_cell2): 0 node vector, 1 node vector without remove (sparse cells),
+    // 2 LOUDS records, 3 critical-bit stub, 4 double array, 5 hash-map trie (sparse cells, second model)
+    let slots: &[usize] = match kind { Kind::Patricia => &[0], Kind::Sparse => &[1, 5], Kind::Louds => &[2], Kind::CritBit => &[3], Kind::DoubleArray => &[4], _ => &[] };
+    let modelled = !slots.is_empty() && cell.status != "S-only";
+    // evaluating the node-vector model's 256-way DFS over several hundred nodes inside Coq is slow: keys beyond 100 bytes are
+    // oracle-only there; the double-array model (finite maps) and the hash-map model replay every generated length (<= 301)
+    let maxlen = ops.iter().map(|(_, k)| k.len()).max().unwrap_or(0);
+    if modelled && coq_ok && obs.len() == ops.len() {
+        for &slot in slots {
+            let short_enough = force_coq || maxlen <= if slot >= 4 { 301 } else { 100 };
+            if !short_enough { continue; }
+            if !(force_coq || (allow_coq && cx.used[slot] < cx.budget[slot])) { continue; }
+            cx.used[slot] += 1;
+            let ops_coq: Vec<String> = ops.iter().enumerate().map(|(i, (o, k))| format!("({}, {})", if unavailable.contains(&i) { 9 } else { *o }, coq_key(k))).collect();
+            let term = format!("({}, [{}], [{}])", slot, ops_coq.join("; "), obs.join("; "));
+            cx.shards.push(term, cj.clone());
+        }
     }
 }
 
@@ -567,8 +576,8 @@ pub fn run(args: &Args) {
     let mut cx = Ctx {
         sum: Summary::new("C05", "histories of insert/remove/contains/len/keys/keys_with_prefix/accepts+lookup/longest_prefix over a key pool built to share structure (the empty key, a stem and all its prefixes, siblings differing in the last byte, 0x00/0xFF extensions, random tails, 33..70-byte stems beyond the 32/64-byte path limits, 254..300-byte keys around the LOUDS length limit); after every mutation len and contains of every key of the history are compared with a BTreeSet, every history ends with a full dump; all histories of 1..3 mutations over {eps,a,ab,b,a\\0} enumerated on every cell; non-trivial = at least two mutations"),
         shards: CoqShards::new(HEADER, 150),
-        budget: if q { [800, 330, 330, 60] } else { [4000, 1500, 1500, 200] },
-        used: [0; 4],
+        budget: if q { [600, 150, 250, 40, 300, 160] } else { [4000, 1500, 1500, 200, 2500, 1500] },
+        used: [0; 6],
     };
     let mut rng = Rng::new(args.seed);
     if let Some(f) = &args.replay {
